@@ -244,19 +244,21 @@ class Merger(object):
                     fid.write(one_template.tobytes())
 
     def write_template_data(self):
+        # Index of the first channel of every probe in the merged channel arrays.
+        n_channels_l = [len(cm) for cm in _load_multiple_files('channel_map.npy', self.subdirs)]
+        channel_index_offsets = np.cumsum([0] + n_channels_l[:-1])
         template_data = [
             # 'templates_ind.npy',  # HACK: do not copy this array (which is trivial with 0 1 2 3..
             # on each row),
             # the templates.npy file is really dense in KS2 and should stay this way
-            'pc_feature_ind.npy',
-            'template_feature_ind.npy',
+            ('pc_feature_ind.npy', channel_index_offsets),  # channel indices
+            ('template_feature_ind.npy', self.template_offsets),  # template indices
         ]
 
-        for fn in template_data:
+        for fn, offsets in template_data:
             arrays = _load_multiple_files(fn, self.subdirs)
-            # For ind arrays, we need to take into account the channel offset.
-            for array, offset in zip(arrays, self.channel_offsets):
-                array += offset
+            # For ind arrays, we need to take into account the channel (or template) offset.
+            arrays = [array.astype(np.int64) + offset for array, offset in zip(arrays, offsets)]
             concat = _concat(arrays, axis=0).astype(np.uint32)
             self._save(fn, concat)
 
